@@ -2,5 +2,5 @@
 REGISTRY = {     # property id -> [stand-in]; "module" or "module:argument"; each module has run(tier, seed[, argument])
     "C01": ["histories:C01"], "C02": ["histories:C02"], "C03": ["histories:C03"], "C04": ["qf_layouts"],
     "C05": ["histories:C05"], "C06": ["histories:C06", "c_header"], "C07": ["sizing_sweep"], "C08": ["histories:C08"], "C09": ["histories:C09"], "C10": ["histories:C09"],
-    "C11": ["ondisk_trace"], "C14": ["histories:C14"], "C15": ["histories:C15"], "C16": ["histories:C16"], "C17": ["histories:C17"],
+    "C11": ["ondisk_trace"], "C12": ["histories:C12"], "C13": ["histories:C13"], "C14": ["histories:C14"], "C15": ["histories:C15"], "C16": ["histories:C16"], "C17": ["histories:C17"],
 }
